@@ -18,6 +18,7 @@
    trees (does the local feature exist and is the function registered, the announced device
    address of a peer, was a write authorised) — the business of C06 / C07 / C03. *)
 From Verif Require Import Base.Prelude Model.Stack Spec.StackObs.
+From Verif Require Import Model.StackX Spec.StackXSpec.
 
 Definition CL_EVENTS : Z := 1.    (* teardown: the removal events are not exactly one per registry entry of the
                                      removed connection / entity (plus one for the device) *)
@@ -329,3 +330,15 @@ Definition accepted (j : list (verdict * list Z)) : bool :=
 
 Definition strictly_accepted (j : list (verdict * list Z)) : bool :=
   forallb (fun ve => match fst ve with [] => true | _ => false end) j.
+
+(* ---------- teardown overlapped by a registry call of another peer (Model/StackX.v) ----------
+   The observations of [During a b] are split into the teardown's and the call's and judged as the
+   teardown followed by the call (Spec/StackXSpec.v xmon); the scope follows both. *)
+Fixpoint xjudge10 (m : mst) (s : sst) (tr : list (xop * list obs)) : list (verdict * list Z) :=
+  match tr with
+  | [] => []
+  | (o, out) :: r =>
+      let '(m1, v) := xmon mon m o out in
+      let s1 := xscope scope s o in
+      (v, excuses s1) :: xjudge10 m1 s1 r
+  end.
